@@ -48,7 +48,14 @@
                                  close(o.subs[idx]), splice [PUnsubClose->PUnsubU nil]; (deferred) Unlock, return
      func (o) UnsubAll()         Lock [->PUnsubAllLoop subs]; close(ch) for each [one step each];
                                  o.subs = nil, Unlock, return nil [PUnsubAllLoop []]
-   Environment calls: CRecv c  (v, ok := <-c)   and  CRange c  (for v := range c {..}). *)
+   Environment calls: CRecv c  (v, ok := <-c)   and  CRange c  (for v := range c {..}).
+
+   Ghost log ([c_trace], newest first; it influences no step): ERLock (a publish
+   call took the read lock: its PubSub, events and o.subs then), EHandoff,
+   ETimeout (with "OnPubTimeout set"), ECallback, EDone (send() returned),
+   EPubRet, ERecv, ESub, ELock / EUnlock (write lock taken / released by the
+   n-th call of a thread, with o.subs then and the returned value), EClose,
+   EViewLock / EViewRet (WithOnly's read lock taken / released), EPanic. *)
 From Typ Require Export Lib.Base.
 
 Definition tid := nat.
@@ -135,6 +142,15 @@ Inductive pc :=
 | PUnsubAllLoop (o : oid) (rest : list cid)
 | PRange (c : cid) (acc : list Z).
 
+(* why the process died *)
+Inductive ppanic :=
+| PSendOnClosed      (* send on closed channel *)
+| PCloseOfClosed     (* close of closed channel *)
+| PCloseOfNil        (* close of nil channel (not reachable) *)
+| PNegWaitGroup      (* sync: negative WaitGroup counter *)
+| PMakeChan          (* makechan: size out of range *)
+| PIndex.            (* index out of range (not reachable) *)
+
 Inductive event :=
 | ERLock (k : callid) (o : oid) (evs : list Z) (subs : list cid)   (* publish call k took the read lock and saw subs *)
 | EHandoff (k : callid) (p : pair)      (* the event was put into the channel / handed to a receiver *)
@@ -145,7 +161,11 @@ Inductive event :=
 | ERecv (t : tid) (c : cid) (v : Z)     (* thread t received v from c *)
 | ESub (o : oid) (c : cid)
 | EClose (t : tid) (o : oid) (c : cid)  (* Unsub/UnsubAll on o closed c *)
-| EPanic (t : tid) (k : panic_kind).
+| ELock (t : tid) (n : nat) (o : oid) (cl : call) (subs : list cid)   (* t took the write lock of o for its n-th call cl; subs = o.subs then *)
+| EUnlock (t : tid) (n : nat) (o : oid) (r : ret) (subs : list cid)   (* t released it and its n-th call returns r; subs = o.subs then *)
+| EViewLock (t : tid) (n : nat) (o : oid) (sub : option cid) (subs : list cid)   (* WithOnly(sub), n-th call of t, took the read lock of o *)
+| EViewRet (t : tid) (n : nat) (o : oid) (v : oid) (vsubs subs : list cid)       (* WithOnly released it and returns view v listing vsubs; subs = o.subs then *)
+| EPanic (t : tid) (k : ppanic).
 
 Record thread := Thread {
   th_prog : list call;        (* calls still to make *)
@@ -159,7 +179,7 @@ Record config := Config {
   c_wg : tid -> nat -> nat;   (* the WaitGroup local to the k_n-th call of thread k_tid *)
   c_threads : list thread;    (* thread t is the t-th element; go appends *)
   c_trace : list event;       (* ghost log, newest first *)
-  c_panic : option panic_kind
+  c_panic : option ppanic
 }.
 
 Inductive choice := Plain | Timer | With (r : tid).
@@ -233,7 +253,7 @@ Definition set_obj (c : config) (o : oid) (ob : psobj) : config :=
   set_objs c (upd o ob (c_objs c)).
 Definition spawn (c : config) (th : thread) : config :=
   set_threads c (c_threads c ++ [th]).
-Definition do_panic (c : config) (t : tid) (k : panic_kind) : config :=
+Definition do_panic (c : config) (t : tid) (k : ppanic) : config :=
   Config (c_objs c) (c_chans c) (c_wg c) (c_threads c) (EPanic t k :: c_trace c) (Some k).
 
 Definition with_pc (th : thread) (p : pc) : thread := Thread (th_prog th) p (th_rets th).
@@ -347,7 +367,7 @@ Definition step_send (c : config) (t : tid) (th : thread) (ch : choice) (k : cal
            (timeout : Z) (cb : bool) (pc_sent pc_cb : pc) : option config :=
   match try_send c ch (p_sub p) (p_ev p) timeout with
   | SBlocked => None
-  | SPanic => Some (do_panic c t SendOnClosed)
+  | SPanic => Some (do_panic c t PSendOnClosed)
   | SSentBuf chans' =>
       Some (log (set_thread (set_chans c chans') t (with_pc th pc_sent)) [EDone k p; EHandoff k p])
   | SSentTo r thr =>
@@ -394,13 +414,13 @@ Definition step_sub_start (c : config) (t : tid) (th : thread) (rest : list call
   | None => None
   | Some ob =>
     if lock_free t ob then
-      if (size <? 0)%Z then Some (do_panic c t OtherPanic)       (* makechan: size out of range *)
+      if (size <? 0)%Z then Some (do_panic c t PMakeChan)        (* makechan: size out of range *)
       else
         let ci := length (c_chans c) in
         Some (log (set_thread (set_obj (set_chans c (c_chans c ++ [Chan [] (Z.to_nat size) false]))
                                        o (set_subs (set_wr ob (Some t)) (o_subs ob ++ [ci])))
                               t (Thread rest (PSubU o ci) (th_rets th)))
-                  [ESub o ci])
+                  [ESub o ci; ELock t (length (th_rets th)) o (call_of l) (o_subs ob)])
     else announce c t th rest l o ob
   end.
 
@@ -414,7 +434,8 @@ Definition step_call (c : config) (t : tid) (th : thread) (cl : call) (rest : li
       | Some ob =>
         if rlock_free ob then
           let clone := PsObj (withonly_loop sub (o_subs ob)) [] None None (o_timeout ob) (o_cb ob) 0%Z in
-          Some (set_thread (set_obj c o (set_rd ob (t :: o_rd ob))) t (Thread rest (PWithOnlyU o clone) (th_rets th)))
+          Some (log (set_thread (set_obj c o (set_rd ob (t :: o_rd ob))) t (Thread rest (PWithOnlyU o clone) (th_rets th)))
+                    [EViewLock t (length (th_rets th)) o sub (o_subs ob)])
         else None
       end
   | CSub o =>
@@ -432,7 +453,8 @@ Definition step_call (c : config) (t : tid) (th : thread) (cl : call) (rest : li
         if lock_free t ob then
           let idx := sub_index (o_subs ob) sub in
           let pc' := if (idx =? -1)%Z then PUnsubU o (RErr ErrAlreadyUnsubscribed) else PUnsubClose o (Z.to_nat idx) in
-          Some (set_thread (set_obj c o (set_wr ob (Some t))) t (Thread rest pc' (th_rets th)))
+          Some (log (set_thread (set_obj c o (set_wr ob (Some t))) t (Thread rest pc' (th_rets th)))
+                    [ELock t (length (th_rets th)) o (CUnsub o (Some sub)) (o_subs ob)])
         else announce c t th rest (LUnsub o sub) o ob
       end
   | CUnsubAll o =>
@@ -440,7 +462,8 @@ Definition step_call (c : config) (t : tid) (th : thread) (cl : call) (rest : li
       | None => None
       | Some ob =>
         if lock_free t ob then
-          Some (set_thread (set_obj c o (set_wr ob (Some t))) t (Thread rest (PUnsubAllLoop o (o_subs ob)) (th_rets th)))
+          Some (log (set_thread (set_obj c o (set_wr ob (Some t))) t (Thread rest (PUnsubAllLoop o (o_subs ob)) (th_rets th)))
+                    [ELock t (length (th_rets th)) o (CUnsubAll o) (o_subs ob)])
         else announce c t th rest (LUnsubAll o) o ob
       end
   | CRecv ci => step_recv c t th ci
@@ -450,9 +473,9 @@ Definition step_call (c : config) (t : tid) (th : thread) (cl : call) (rest : li
 (* close(ch) by thread t working on object o *)
 Definition close_chan (c : config) (t : tid) (o : oid) (ci : cid) : option config :=
   match nth_error (c_chans c) ci with
-  | None => Some (do_panic c t NilDeref)                        (* close of nil channel: not reachable *)
+  | None => Some (do_panic c t PCloseOfNil)                     (* close of nil channel: not reachable *)
   | Some chn =>
-    if ch_closed chn then Some (do_panic c t SendOnClosed)       (* close of closed channel *)
+    if ch_closed chn then Some (do_panic c t PCloseOfClosed)     (* close of closed channel *)
     else Some (log (set_chans c (upd ci (Chan (ch_buf chn) (ch_cap chn) true) (c_chans c))) [EClose t o ci])
   end.
 
@@ -502,7 +525,7 @@ Definition step_thread (c : config) (t : tid) (th : thread) (ch : choice) : opti
         Some (log (set_thread c t (with_pc th (after_send wg k p))) [EDone k p; ECallback k p])
     | PGoDone k p =>
         match c_wg c (k_tid k) (k_n k) with
-        | O => Some (do_panic c t OtherPanic)                    (* sync: negative WaitGroup counter *)
+        | O => Some (do_panic c t PNegWaitGroup)                 (* sync: negative WaitGroup counter *)
         | S m => Some (set_thread (set_wg c (wg_set (c_wg c) (k_tid k) (k_n k) m)) t (with_pc th PExit))
         end
     | PExit => None
@@ -511,19 +534,21 @@ Definition step_thread (c : config) (t : tid) (th : thread) (ch : choice) : opti
         | None => None
         | Some ob =>
           let c1 := set_obj c o (set_rd ob (remove_one t (o_rd ob))) in
-          Some (set_thread (set_objs c1 (c_objs c1 ++ [clone])) t (returns th (RView (length (c_objs c)))))
+          Some (log (set_thread (set_objs c1 (c_objs c1 ++ [clone])) t (returns th (RView (length (c_objs c)))))
+                    [EViewRet t (length (th_rets th)) o (length (c_objs c)) (o_subs clone) (o_subs ob)])
         end
     | PSubU o ci =>
         match nth_error (c_objs c) o with
         | None => None
-        | Some ob => Some (set_thread (set_obj c o (set_wr ob None)) t (returns th (RChan ci)))
+        | Some ob => Some (log (set_thread (set_obj c o (set_wr ob None)) t (returns th (RChan ci)))
+                               [EUnlock t (length (th_rets th)) o (RChan ci) (o_subs ob)])
         end
     | PUnsubClose o idx =>
         match nth_error (c_objs c) o with
         | None => None
         | Some ob =>
           match nth_error (o_subs ob) idx with
-          | None => Some (do_panic c t IndexOutOfRange)          (* not reachable *)
+          | None => Some (do_panic c t PIndex)                   (* not reachable *)
           | Some ci =>
             match close_chan c t o ci with
             | None => None
@@ -540,7 +565,7 @@ Definition step_thread (c : config) (t : tid) (th : thread) (ch : choice) : opti
     | PUnsubU o r =>
         match nth_error (c_objs c) o with
         | None => None
-        | Some ob => Some (set_thread (set_obj c o (set_wr ob None)) t (returns th r))
+        | Some ob => Some (log (set_thread (set_obj c o (set_wr ob None)) t (returns th r)) [EUnlock t (length (th_rets th)) o r (o_subs ob)])
         end
     | PUnsubAllLoop o (ci :: rest) =>
         match close_chan c t o ci with
@@ -554,7 +579,8 @@ Definition step_thread (c : config) (t : tid) (th : thread) (ch : choice) : opti
     | PUnsubAllLoop o [] =>
         match nth_error (c_objs c) o with
         | None => None
-        | Some ob => Some (set_thread (set_obj c o (set_wr (set_subs ob []) None)) t (returns th RNil))
+        | Some ob => Some (log (set_thread (set_obj c o (set_wr (set_subs ob []) None)) t (returns th RNil))
+                               [EUnlock t (length (th_rets th)) o RNil []])
         end
     | PRange ci acc => step_recv c t th ci
     end.
